@@ -633,7 +633,20 @@ func (w *WAL) Set(key []byte, val []byte) error {
 	}
 	verifPoint("Set.checked")
 	w.metrics.IncrementCounter("stable_sets", 1)
-	return w.metaDB.SetStable(key, val)
+	if err := w.metaDB.SetStable(key, val); err != nil {
+		return w.closedOr(err)
+	}
+	return nil
+}
+
+// closedOr returns ErrClosed if the WAL has been closed, otherwise err. It is
+// for errors from calls that don't hold the write lock and so may find the
+// metaDB already shut by a concurrent Close.
+func (w *WAL) closedOr(err error) error {
+	if cerr := w.checkClosed(); cerr != nil {
+		return cerr
+	}
+	return err
 }
 
 // Get implements raft.StableStore
@@ -643,7 +656,11 @@ func (w *WAL) Get(key []byte) ([]byte, error) {
 	}
 	verifPoint("Get.checked")
 	w.metrics.IncrementCounter("stable_gets", 1)
-	return w.metaDB.GetStable(key)
+	val, err := w.metaDB.GetStable(key)
+	if err != nil {
+		return nil, w.closedOr(err)
+	}
+	return val, nil
 }
 
 // SetUint64 implements raft.StableStore. We assume the same key space as Set
